@@ -1046,3 +1046,64 @@ def d5(ctx):
                       '%s: "custom node found" starts false, is set in the Custom arm, and is OR-ed with '
                       'the recursive answers' % inst(f),
                       '%s: %s' % (inst(f), '; '.join(problems)), f.loc)
+
+
+@rule('N6', floor=4, title='joining and slicing accessors composes access: own entries first, then the other\'s')
+def n6(ctx):
+    """An accessor is the tuple of its entries applied left to right.  `a + b` must therefore be the
+    entries of a followed by those of b (or by the single entry b), and `a[i:j]` an accessor over
+    that slice of the entries; anything else makes `(a + b)(tree) != b(a(tree))`."""
+    pkg = ctx.py()
+    mod = pkg.mod('optree.accessor')
+    add = mod.funcs.get('PyTreeAccessor.__add__')
+    gi = mod.funcs.get('PyTreeAccessor.__getitem__')
+    ctx.require(add is not None and gi is not None, 'PyTreeAccessor.__add__ / __getitem__ not found')
+
+    def params(fn):
+        return [a.arg for a in fn.args.posonlyargs + fn.args.args]
+    s_, o_ = params(add)[:2]
+    rets = [r for r in walk(add) if isinstance(r, ast.Return) and r.value is not None]
+    cfg = pycfg(add)
+    shapes = {}
+    for r in rets:
+        # the class test this return sits under
+        cls_ = None
+        cur = r
+        parent = {}
+        for n in ast.walk(add):
+            for c in ast.iter_child_nodes(n):
+                parent[id(c)] = n
+        while id(cur) in parent:
+            p_ = parent[id(cur)]
+            if isinstance(p_, ast.If) and any(cur is x for x in p_.body):
+                m = pmatch(p_.test, 'isinstance(?o, ?c)', {'o': o_})
+                if m is not None:
+                    cls_ = m['c'] if isinstance(m['c'], str) else src(p_.test.args[1])
+            cur = p_
+        shapes[cls_] = r.value
+    env = {'s': s_, 'o': o_}
+    ok_entry = 'PyTreeEntry' in shapes and pmatch(shapes['PyTreeEntry'], '?s.__class__((*?s, ?o))', env) is not None
+    ok_acc = 'PyTreeAccessor' in shapes and pmatch(shapes['PyTreeAccessor'], '?s.__class__((*?s, *?o))', env) is not None
+    ok_other = None in shapes and src(shapes[None]) == 'NotImplemented'
+    ctx.check('PyTreeAccessor.__add__/entry', ok_entry,
+              'accessor + entry appends the entry after the accessor\'s own entries',
+              'accessor + entry builds `%s`' % (src(shapes.get('PyTreeEntry')) if shapes.get('PyTreeEntry') is not None else 'nothing'),
+              mod.loc(add))
+    ctx.check('PyTreeAccessor.__add__/accessor', ok_acc,
+              'accessor + accessor is the left operand\'s entries followed by the right operand\'s',
+              'accessor + accessor builds `%s`: the joined accessor does not apply the left one first'
+              % (src(shapes.get('PyTreeAccessor')) if shapes.get('PyTreeAccessor') is not None else 'nothing'), mod.loc(add))
+    ctx.check('PyTreeAccessor.__add__/other', ok_other,
+              'anything else is NotImplemented', 'accessor + <other> returns `%s`'
+              % (src(shapes.get(None)) if shapes.get(None) is not None else 'nothing'), mod.loc(add))
+    s2, i2 = params(gi)[:2]
+    env2 = {'s': s2, 'i': i2}
+    rets = [r for r in walk(gi) if isinstance(r, ast.Return) and r.value is not None]
+    sl = [r for r in rets if pmatch(r.value, '?s.__class__(super().__getitem__(?i))', env2) is not None]
+    pl = [r for r in rets if pmatch(r.value, 'super().__getitem__(?i)', env2) is not None]
+    guard = [n for n in walk(gi) if isinstance(n, ast.If) and pmatch(n.test, 'isinstance(?i, slice)', env2) is not None]
+    ok = len(sl) == 1 and len(pl) == 1 and len(guard) == 1 and any(sl[0] is x for x in guard[0].body)
+    ctx.check('PyTreeAccessor.__getitem__/slice', ok,
+              'a slice of an accessor is an accessor over that slice of its entries; an index is the entry',
+              'PyTreeAccessor.__getitem__ does not return self.__class__(<tuple slice>) for slices and the '
+              'entry for indices', mod.loc(gi))
